@@ -199,6 +199,20 @@ func (env *SpecEnv) eval(e *Expr) *Value {
 					vs[p.Name()] = env.fr.params[i]
 				}
 			}
+			// a closure's captured variables: their values at the closure's entry
+			for i, fv := range env.fr.fn.FreeVars {
+				if i >= len(env.fr.bind) {
+					break
+				}
+				v := env.fr.bind[i]
+				if v.K == KPtr {
+					if pt, ok := fv.Type().(*types.Pointer); ok {
+						vs[fv.Name()] = x.load(env.fr.entry, v.P, pt.Elem())
+						continue
+					}
+				}
+				vs[fv.Name()] = v
+			}
 			for k, v := range env.vars {
 				vs[k] = v
 			}
